@@ -544,6 +544,26 @@ func junkKinds() []junkKind {
 	}
 }
 
+// clearCookies: the values of the cookie extension fields a payload carries in the clear, by the
+// harness's own walk over the extension fields (stops at the first field that does not fit).
+func clearCookies(b []byte) (cs [][]byte) {
+	for pos := 48; pos+4 <= len(b); {
+		typ := int(binary.BigEndian.Uint16(b[pos:]))
+		l := int(binary.BigEndian.Uint16(b[pos+2:]))
+		if l < 4 || pos+l > len(b) {
+			break
+		}
+		if typ == xCookie {
+			cs = append(cs, append([]byte(nil), b[pos+4:pos+l]...))
+		}
+		if typ == xAuth {
+			break
+		}
+		pos += l
+	}
+	return
+}
+
 func fitFields(uidLen, cookieLen int) int {
 	n := 1024 - 48 - (4 + pad4(uidLen)) - 40
 	if n < 0 {
@@ -676,7 +696,7 @@ func (h *poolHist) build(c *lib.Ctx, r *lib.Rand, s poolScript) (b built, ok boo
 		if len(pay) > 1024 {
 			return b, false
 		}
-		for _, ck := range cs {
+		for _, ck := range clearCookies(pay) {
 			b.junkCookies[string(ck)] = kinds[ki].name
 		}
 		d = append(d, pay)
